@@ -34,6 +34,7 @@ package annotation
 
 import (
 	"context"
+	stdjson "encoding/json"
 	"errors"
 	"fmt"
 	"math"
@@ -90,11 +91,10 @@ func (m agwBodyDynamic) Read(ctx context.Context, p *thrift.BinaryProtocol, fiel
 	if err != nil {
 		return err
 	}
-	//FIXME: must validate the json string
-	// ok, _ := encoder.Valid(b)
-	// if !ok {
-	// 	return fmt.Errorf("invalid json: %s", string(b))
-	// }
+	// the value is spliced into the output verbatim: it has to be a JSON document itself
+	if !stdjson.Valid(b) {
+		return fmt.Errorf("body_dynamic value of field '%s' is not valid json", field.Name())
+	}
 	*out = append(*out, b...)
 	return nil
 }
